@@ -227,7 +227,7 @@ void StatementExecutor::execute_member_array_assignment(const ASTNode *node) {
     if (is_nested_struct_array_access) {
         debug_msg(DebugMsgId::GENERIC_DEBUG,
                   "DEBUG: Processing nested struct array member assignment");
-        int array_index = static_cast<int>(indices[0]);
+        int array_index = Variable::index_to_int(indices[0]);
 
         // array_member_name の配列から要素を取得
         Variable *array_member =
@@ -437,7 +437,7 @@ void StatementExecutor::execute_member_array_assignment(const ASTNode *node) {
     }
 
     // 1次元配列の場合（従来処理）
-    int index = static_cast<int>(indices[0]);
+    int index = Variable::index_to_int(indices[0]);
     if (node->right->node_type == ASTNodeType::AST_STRING_LITERAL) {
         interpreter_.assign_struct_member_array_element(
             obj_name, member_name, index, node->right->str_value);
